@@ -55,3 +55,7 @@ Theorem C35_commission_split : forall i o,
     /\ 0 <= p_comm p /\ 0 <= p_vr p.
 Proof. exact commission_split. Qed.
 Print Assumptions C35_commission_split.
+
+Theorem C35_no_panic : forall i, wf_inputb i = true -> calculate i <> RPanic.
+Proof. exact no_panic. Qed.
+Print Assumptions C35_no_panic.
